@@ -184,11 +184,11 @@ def run(db, chk) -> None:
     chk.ob("C06.R4-selection", "kernel frame keyed by index_correlation (left key of the launch join)", Lctx[0] == TR, where2, found=T._ctx(Lctx)[:200], accepted="rows of the trace frame")
     # default streams
     r0 = runs[0]
-    st = r0.env.get("streams")
+    st = r0.env.get("streams")   # `streams` is a parameter (rebinding keeps its name)
     exp_st = ("list", ("unique", gk.col("stream"), gk.ctx()))
     check_term(chk, "C06.R4-selection", "streams default = every stream present among the selected kernels", where2, to_term(st), [exp_st])
     # name map agreement
-    nm = r0.env.get("idle_category_name_map")
+    nm = next((v for v in r0.env.values() if isinstance(v, dict) and v and all(isinstance(k, int) for k in v) and all(isinstance(x, str) for x in v.values())), None)
     want = {v: k.lower() for k, v in enum.items()}
     chk.ob("C06.R2-enum-agreement", "category values written are mapped back to host_wait / kernel_wait / other", isinstance(nm, dict) and nm == want and
            set(want.values()) == {"host_wait", "kernel_wait", "other"}, where2, found=nm if isinstance(nm, dict) else T.show(to_term(nm))[:200], accepted=want)
@@ -205,9 +205,18 @@ def run(db, chk) -> None:
     if len(cs) != 1:
         raise AnalysisError("facade delegation not found")
     bnd = H.bind_call(f2, cs[0])
+    def derives(arg, pn):
+        """the argument is the facade's like-named parameter, or a loop variable over the facade's plural parameter (rank <- ranks)"""
+        if H.name_id(arg) == pn and pn in H.param_names(fac):
+            return True
+        if isinstance(arg, ast.Name):
+            for lp in [n for n in ast.walk(fac) if isinstance(n, ast.For) and H.name_id(n.target) == arg.id]:
+                if H.name_id(lp.iter) == pn + "s" and (pn + "s") in H.param_names(fac):
+                    return True
+        return False
     for pn in ("consecutive_kernel_delay", "rank", "streams", "visualize", "visualize_pctg", "show_idle_interval_stats"):
         got = bnd.get(pn)
-        chk.ob("C06.R5-binding", f"facade argument -> parameter {pn}", H.name_id(got) == pn, ta.loc(cs[0]), found=ast.unparse(got) if got is not None else None, accepted=pn,
+        chk.ob("C06.R5-binding", f"facade argument -> parameter {pn}", derives(got, pn), ta.loc(cs[0]), found=ast.unparse(got) if got is not None else None, accepted=pn,
                why="positional arguments bound to another parameter silently change threshold / rank / stream selection")
     chk.ob("C06.R5-binding", "facade passes its trace", H.is_self_attr(bnd.get("t"), "t"), ta.loc(cs[0]), found=ast.unparse(bnd["t"]) if "t" in bnd else None, accepted="self.t")
     # facade default for the threshold parameter flows from the documented default
